@@ -39,7 +39,7 @@ def check(run):
     _siblings(run, sm, forms)
     _stacked(run, prog)
     from ..cachekey import check_caches
-    check_caches(run, [m for k, m in prog.modules.items() if k.startswith('cherab.tools.inversions')], 'C11-K')
+    check_caches(run, [m for k, m in prog.modules.items() if k.startswith('cherab.tools.inversions')], 'C11-K', prog=prog)
     _inputs_kept(run, prog)
 
 
